@@ -239,6 +239,10 @@ func run(c *drv.Ctx) error {
 			defer wg.Done()
 			for i := range ch {
 				if err := history(c, bin, seeds[i], i); err != nil {
+					if strings.Contains(err.Error(), drv.ErrWatchdog.Error()) {
+						c.Inconclusive(fmt.Sprintf("history %d: %v", i, err)) // wall clock, not a verdict
+						continue
+					}
 					mu.Lock()
 					errs = append(errs, fmt.Sprintf("history %d: %v", i, err))
 					mu.Unlock()
